@@ -169,6 +169,10 @@ inductive MarshalFact
       order, a failed `json.Marshal` returning its error at once; at the end, a buffer longer than
       `longerThan` has its LAST byte replaced by `closing`, any other gets `closing` appended; `(buffer, nil)`. -/
   | members (opening : List Nat) (skipFormat : Int) (pieces : List Piece) (longerThan closing : Nat)
+  /-- the other comma discipline: the buffer starts as `opening`; same walk, same skip; every other element first
+      appends `separator` when the buffer is longer than `longerThan` (something was written after the opening), then
+      adds `pieces`; at the end `closing` is appended; `(buffer, nil)`. -/
+  | separated (opening : List Nat) (skipFormat : Int) (longerThan separator : Nat) (pieces : List Piece) (closing : Nat)
   | unknown (text : String)
   deriving DecidableEq, Repr
 
@@ -227,6 +231,9 @@ inductive MapCase
   /-- `i, _ := cast.<caster>(val)` first, its error dropped; then `if field.<can>() { field.<setter>(i.(<asserted>)) }`
       (single-value assertion) -/
   | viaCast (caster can setter asserted : String)
+  /-- `if field.<can>() { i, _ := cast.<caster>(val); field.<setter>(i.(<asserted>)) }`: the guard first, the cast
+      under it.  The casters have no effect, so this is `viaCast` (`MapCase.castFirst`). -/
+  | guardThenCast (caster can setter asserted : String)
   /-- `if field.Kind() == kind { field.<setter>(val) }` -/
   | whenKind (kind : Nat) (setter : String)
   /-- `if field.Kind() == kind && field.Type().Elem().Kind() == elem { field.<setter>(val) }` -/
@@ -234,11 +241,17 @@ inductive MapCase
   | unknown (text : String)
   deriving DecidableEq, Repr
 
+/-- The case with the cast in front of the guard: what a case does, whichever way it is written. -/
+def MapCase.castFirst : MapCase → MapCase
+  | .guardThenCast c g s a => .viaCast c g s a
+  | m => m
+
 inductive MapToFact
   /-- `target := reflect.ValueOf(v)`; nothing unless `target.Kind() == ptr`, `!target.IsNil()` and
       `target.Elem().Kind() == struct`; for every field index in order: `field := target.Elem().Field(i)`;
       `!field.CanSet()` → next; `value, ok := r.<lookup>(<key>(type.Field(i).Name))`; `!ok` → next; the type
-      switch `cases` on `value` (a dynamic type without case: nothing) -/
+      switch `cases` on `value` (a dynamic type without case: nothing), listed by type name — the clauses name
+      distinct dynamic types, so their order in the source says nothing -/
   | fields (ptr struct : Nat) (key lookup : String) (cases : List (String × MapCase))
   | unknown (text : String)
   deriving DecidableEq, Repr
@@ -314,6 +327,7 @@ def FindFact.isKnown : FindFact → Bool | .unknown _ => false | _ => true
 def Piece.isKnown : Piece → Bool | .other _ => false | _ => true
 def MarshalFact.isKnown : MarshalFact → Bool
   | .members _ _ ps _ _ => ps.all Piece.isKnown
+  | .separated _ _ _ _ ps _ => ps.all Piece.isKnown
   | .unknown _ => false
 def UStep.isKnown : UStep → Bool | .unknown _ => false | _ => true
 def ParseObjectFact.isKnown : ParseObjectFact → Bool
@@ -328,6 +342,27 @@ def MapToFact.isKnown : MapToFact → Bool
   | .unknown _ => false
 def CopyFact.isKnown : CopyFact → Bool | .unknown _ => false | _ => true
 def NewRowFact.isKnown : NewRowFact → Bool | .unknown _ => false | _ => true
+
+/-- The Format constant whose cells MarshalJSON leaves out. -/
+def MarshalFact.skipFormat : MarshalFact → Option Int
+  | .members _ s _ _ _ => some s
+  | .separated _ s _ _ _ _ => some s
+  | .unknown _ => none
+
+/-- The separator written BEFORE every member but the first and the closing appended, told as the separator written
+    AFTER every member and the last one replaced by the closing.  (That both disciplines give the same bytes is not
+    assumed here: `Proofs.RowTieMarshal.marshal_either` proves each of them equal to `RowPrint.marshalVal`.) -/
+def MarshalFact.normalised : MarshalFact → MarshalFact
+  | .separated o s n sep ps c => .members o s (ps ++ [.byte sep]) n c
+  | m => m
+
+def MapToFact.normalised : MapToFact → MapToFact
+  | .fields p s k l cs => .fields p s k l (cs.map fun c => (c.1, c.2.castFirst))
+  | m => m
+
+/-- The facts with every accepted alternative spelling replaced by the one `RowFactsSpec.expected` uses. -/
+def RowFacts.normalised (f : RowFacts) : RowFacts :=
+  { f with marshal := f.marshal.normalised, mapTo := f.mapTo.normalised }
 
 /-- No `unknown` anywhere. -/
 def RowFacts.known (f : RowFacts) : Bool :=
